@@ -13,7 +13,7 @@ RULE = ("every cover made of 1..3 (quick) / 1..4 (thorough) cliques, each a vert
         "dispatched construction; table compared with per-vertex clique counts computed independently; then the "
         "sampler and GCMAlgorithmFast with clique motifs of the reported sizes are run once as a wiring check; "
         "non-trivial = cover with >= 2 distinct clique sizes")
-BOUNDS = {"quick": "<= 3 cliques over 5 vertices", "thorough": "<= 4 cliques over 5 vertices"}
+BOUNDS = {"quick": "<= 3 cliques over 5 vertices, 4 cliques over 4 vertices, 7 covers with cliques of 8-12 vertices", "thorough": "<= 4 cliques over 5 vertices"}
 ASSUMPTIONS = ["vertex ids are contiguous from 0 or 1, as the property requires",
                "the sampling/generation clause is checked as wiring on the default RNG resolution only"]
 
@@ -41,6 +41,18 @@ BIG_COVERS = [
 
 def instances(tier, seed):
     yield {"covers": BIG_COVERS, "no_shift": True}
+    # four cliques (repetitions included) on the vertices {0..3}
+    subs4 = [list(c) for k in range(2, 5) for c in itertools.combinations(range(4), k)]
+    batch = []
+    for cov in itertools.product(subs4, repeat=4):
+        u = set().union(*map(set, cov))
+        if u == set(range(max(u) + 1)):
+            batch.append([list(c) for c in cov])
+            if len(batch) >= 400:
+                yield {"covers": batch}
+                batch = []
+    if batch:
+        yield {"covers": batch}
     maxc = 3 if tier == "quick" else 4
     batch = []
     for cov in covers(maxc):
@@ -72,7 +84,9 @@ def check_cover(cover, how):
     from gcmpy.gcm_algorithm.gcm_algorithm_fast import GCMAlgorithmFast
     from gcmpy.motif_generators.clique_motif import clique_motif
     sizes, law = expected(cover)
-    params = {JN.COVER: [list(c) for c in cover]}
+    # cliques are handed over as lists or, for every other cover, as tuples
+    as_tuple = sum(len(c) for c in cover) % 2 == 1
+    params = {JN.COVER: [tuple(c) if as_tuple else list(c) for c in cover]}
     try:
         if how == "direct":
             obj = JointDegreeCover(params)
